@@ -36,6 +36,13 @@ Theorem C10_cannot_confirm : forall e w n w',
 Proof. exact confirm_needs_not_blacklisted. Qed.
 Theorem C10_no_ticket_after_filter : forall before, new_range before 0 = None.
 Proof. reflexivity. Qed.
+(** ... and the claim endpoint of the six contracts that pay at once refuses a blacklisted caller
+    outright, whatever ticket range is left (repair of finding F9: an empty allocation is never
+    visited by the filter, so its range survived and the NFT contracts handed its blacklisted owner
+    a participation SFT) *)
+Theorem C10_cannot_claim : forall sf e w,
+  blacklisted (st w) (caller e) = true -> exists k, claim_launchpad_tokens sf e w = Err k.
+Proof. exact claim_blacklisted_fails. Qed.
 
 (** un-blacklisting clears only the flags of the listed participants: nobody's tickets,
     confirmations, reservations, entitlements or any term changes *)
@@ -62,5 +69,6 @@ Print Assumptions C10_blacklist_one.
 Print Assumptions C10_gate.
 Print Assumptions C10_cannot_confirm.
 Print Assumptions C10_no_ticket_after_filter.
+Print Assumptions C10_cannot_claim.
 Print Assumptions C10_unblacklist_frame.
 Print Assumptions C10_nonvacuous.
